@@ -84,5 +84,10 @@ example : (AcceptRace.run true {} [.loopAdd, .acceptOk, .spawn, .send, .loopAdd,
     or clause; DESIGN.md §11.6a) -/
 theorem streams_skeletons : Skeletons.StreamsShape := Skeletons.streams_shape
 theorem dispatch_skeletons : Skeletons.DispatchShape := Skeletons.dispatch_shape
+theorem f_logstream_fifostream_skeletons : Skeletons.F_logstream_fifostreamShape := Skeletons.f_logstream_fifostream_shape
+theorem f_logstream_socketstream_skeletons : Skeletons.F_logstream_socketstreamShape := Skeletons.f_logstream_socketstream_shape
+theorem f_logstream_dgramstream_skeletons : Skeletons.F_logstream_dgramstreamShape := Skeletons.f_logstream_dgramstream_shape
+theorem f_logstream_cancel_skeletons : Skeletons.F_logstream_cancelShape := Skeletons.f_logstream_cancel_shape
+theorem f_logstream_logstream_skeletons : Skeletons.F_logstream_logstreamShape := Skeletons.f_logstream_logstream_shape
 
 end MtailVerif.C17
